@@ -85,6 +85,8 @@ def scale_trunc(x, scale, shift):
 
 
 def apply_scale(x, scale, shift, rounding):
+    if np.ndim(scale) == 0 and np.ndim(shift) == 0 and int(scale) == 1 and int(shift) == 0:
+        return np.asarray(x, np.int64)  # "no scaling": the value itself (also avoids the 2^31 pre-shift overflowing on 32-bit sums)
     if rounding == "TFL":
         return scale_tfl(x, scale, shift)
     if rounding == "NATURAL":
@@ -173,7 +175,8 @@ class Datapath:
     def output(self, k, y):
         """zero point, clamp, lookup table"""
         y = y + k.ofm.zp
-        y = np.clip(y, k.act_min, k.act_max)
+        if k.ofm.bits <= 16:
+            y = np.clip(y, k.act_min, k.act_max)  # (the 16-bit activation range registers do not apply to a 32-bit OFM)
         if k.uses_lut:
             if k.ifm.bits != 8 or k.ofm.bits not in (8,):
                 raise NotModelled("lookup table with non 8-bit data")
@@ -251,8 +254,13 @@ class Datapath:
         return apply_scale(acc, sc, sh, k.rounding)
 
     def elementwise(self, k):
-        if k.ifm.bits != 8 or k.ofm.bits != 8:
-            raise NotModelled("non 8-bit elementwise")
+        wide = k.ifm.bits == 32 or k.ofm.bits == 32 or (k.ifm2 is not None and not (k.bcast & 0x80) and k.ifm2.bits == 32)
+        if 16 in (k.ifm.bits, k.ofm.bits) or (k.ifm2 is not None and k.ifm2.bits == 16):
+            raise NotModelled("16-bit elementwise")
+        if wide and (k.sub not in ("ADD", "SUB", "MUL", "MIN", "MAX") or k.uses_lut):
+            raise NotModelled("32-bit elementwise " + str(k.sub))
+        if wide and k.sub in ("ADD", "SUB") and (k.ifm_scale_mode != 0 or k.opa_scale[0] != 1 or k.opb_scale[0] != 1):
+            raise NotModelled("32-bit add/sub with operand scaling")
         a = self.m.read_elems(k.ifm, (0, k.oh, 0, k.ow, 0, k.oc)) - k.ifm.zp
         if k.sub in HW.EW_UNARY:
             if k.sub == "ABS":
@@ -264,8 +272,6 @@ class Datapath:
         if k.bcast & 0x80:
             b = np.full_like(a, k.scalar - k.ifm2.zp)
         else:
-            if k.ifm2.bits != 8:
-                raise NotModelled("non 8-bit IFM2")
             h = 1 if k.bcast & 1 else k.oh
             w = 1 if k.bcast & 2 else k.ow
             c = 1 if k.bcast & 4 else k.oc
@@ -280,6 +286,8 @@ class Datapath:
             return self.output(k, y)
         if k.sub == "MUL":
             sc, sh = k.ofm_scale
+            if k.ifm.bits == 32:
+                sc = 1  # 32-bit operands: the product is only shifted (rounded); the multiplier field of OFM_SCALE is not applied
             y = apply_scale(a * b, sc, sh, k.rounding)
             return self.output(k, y)
         if k.sub in ("ADD", "SUB"):
